@@ -480,7 +480,11 @@ func c02final(c *an.Ctx) {
 			bad = name
 		}
 	}
+	addIn, addDef := heapInsert(c, "inFlightPQ"), heapInsert(c, "deferredPQ")
 	an.Instrs(fn, func(in ssa.Instruction) {
+		if addIn.is(in) || addDef.is(in) {
+			bad = "deadline heap insert"
+		}
 		if _, ok := in.(*ssa.Send); ok {
 			bad = "channel send"
 		}
